@@ -489,3 +489,16 @@ Example C16_example :
   md_precheck wrapped_doc = false /\ md_precheck wrapped_doc_moved = false /\ md_precheck wrapped0_doc = false.
 Proof. vm_compute. repeat split; try reflexivity. eexists; reflexivity. Qed.
 Print Assumptions C16_example.
+
+(* GLUE to C03 / C08 / C10 / C17 (Proofs/Glue_certs.v, docs/Glue.md): the certificates certs(eid, any, use) serves are
+   the ones Model/CertSelect.v's md_certs - the function signatures are checked under and assertions are encrypted
+   for - computes on this store read as a CertSelect store (certificate texts numbered by their position in the
+   list of all texts of the store): same certificates, same order, same duplicates dropped. *)
+From PV Require Model.CertSelect Proofs.Glue_certs.
+Theorem C16_certs_is_the_function_signatures_are_checked_under :
+  forall st eid use l,
+    let num := Glue_certs.num_of (Glue_certs.store_texts st) in
+    store_certs st eid (s2l "any") use = Ok l ->
+    CertSelect.md_certs (Glue_certs.abs_store num st) (Some eid) use = Some (map num l).
+Proof. intros st eid use l. exact (Glue_certs.md_certs_agree_canonical st eid use l). Qed.
+Print Assumptions C16_certs_is_the_function_signatures_are_checked_under.
